@@ -108,6 +108,9 @@ func (c *trCtx) assignedIn2(through bool, nodes ...ast.Node) []types.Object {
 				if id, ok := x.Fun.(*ast.Ident); ok && id.Name == "delete" && len(x.Args) == 2 {
 					mark(x.Args[0])
 				}
+				if sel, ok := x.Fun.(*ast.SelectorExpr); ok && sel.Sel.Name == "GetDefault" && len(x.Args) == 3 {
+					mark(x.Args[0]) // dict.GetDefault stores a missing entry
+				}
 				if fo := c.calledFunc(x); fo != nil {
 					if p, ok := trPrims[fo.FullName()]; ok && p.mutRecv {
 						if sel, ok := trUnparen(x.Fun).(*ast.SelectorExpr); ok {
@@ -379,6 +382,9 @@ func (c *trCtx) stmt(s ast.Stmt, k trK) trLines {
 					return c.returnMutCall(x, call, tf, recv)
 				}
 			}
+			if call := c.isGetDefault(x.Results[0]); call != nil && c.nresults == 1 {
+				return c.getDefaultThen(call, func(v string) trLines { return c.returnTerm([]string{v}, x.Pos()) })
+			}
 		}
 		if len(x.Results) == 0 && c.nresults > 0 {
 			trFail(x.Pos(), "return without values in a function with named results is outside the subset")
@@ -413,6 +419,8 @@ func (c *trCtx) stmt(s ast.Stmt, k trK) trLines {
 		return c.ifStmt(x, k)
 	case *ast.SwitchStmt:
 		return c.switchStmt(x, k)
+	case *ast.TypeSwitchStmt:
+		return c.typeSwitch(x, k)
 	case *ast.ForStmt:
 		return c.forStmt(x, k)
 	case *ast.RangeStmt:
@@ -533,6 +541,7 @@ func (c *trCtx) declStmt(x *ast.DeclStmt, k trK) trLines {
 
 // store: the assignment `lhs = val` (val already translated) followed by k
 func (c *trCtx) store(lhs ast.Expr, val string, pos token.Pos, k trK) trLines {
+	k = c.writeBack(lhs, k)
 	pre0 := c.takePre()
 	name, ty, term := c.storeTerm(lhs, val, pos)
 	pre := append(pre0, c.takePre()...)
@@ -566,7 +575,9 @@ func (c *trCtx) storeTerm(lhs ast.Expr, val string, pos token.Pos) (name, typ, t
 		// through a pointer: only the receiver / a parameter handled by state passing, or a local struct value
 		if _, isPtr := c.typeOf(l.X).Underlying().(*types.Pointer); isPtr {
 			id, ok := trUnparen(l.X).(*ast.Ident)
-			if !ok || !c.isMutObj(c.info().Uses[id]) {
+			if ok && c.aliases != nil && c.aliases[c.info().Uses[id]] != nil {
+				// a pointer into a map entry: the write-back follows (trCtx.writeBack)
+			} else if !ok || !c.isMutObj(c.info().Uses[id]) {
 				trFail(pos, "assignment through the pointer %s, which is not a receiver or parameter of this function, is outside the subset", trSrc(l.X))
 			}
 		}
@@ -761,8 +772,15 @@ func (c *trCtx) mutCall(call *ast.CallExpr, tf *trFunc, recv ast.Expr, lhs []ast
 	if recv != nil {
 		args = append(args, c.expr(recv))
 	}
-	for _, a := range call.Args {
-		args = append(args, c.expr(a))
+	keyIdx, aliasing := c.aliasKeyArg(call, tf)
+	keyName, keyVal, keyTy := "", "", ""
+	for i, a := range call.Args {
+		s := c.identityArg(tf.obj, i, a, c.expr(a))
+		if aliasing && i == keyIdx {
+			keyName, keyVal, keyTy = c.fresh("key"), s, c.leanType(c.typeOf(a), a.Pos())
+			s = keyName
+		}
+		args = append(args, s)
 	}
 	args = append(args, c.passExtras(tf)...)
 	c.fn.deps = append(c.fn.deps, tf)
@@ -775,6 +793,13 @@ func (c *trCtx) mutCall(call *ast.CallExpr, tf *trFunc, recv ast.Expr, lhs []ast
 		v = "(" + app + ")"
 	}
 	pre := c.takePre()
+	if aliasing {
+		if len(lhs) != 1 || !define {
+			trFail(call.Pos(), "%s returns a pointer into a map of its receiver: only `x := recv.%s(…)` is in the subset", tf.leanName, tf.decl.Name.Name)
+		}
+		k0 := k
+		k = func() trLines { c.registerAlias(call, tf, recv, lhs[0], keyName); return k0() }
+	}
 	nres := tf.obj.Type().(*types.Signature).Results().Len()
 	if len(lhs) != 0 && len(lhs) != nres {
 		trFail(call.Pos(), "call of %s with %d results assigned to %d targets", tf.leanName, nres, len(lhs))
@@ -815,7 +840,11 @@ func (c *trCtx) mutCall(call *ast.CallExpr, tf *trFunc, recv ast.Expr, lhs []ast
 		}
 		return c.store(targets[i], proj, call.Pos(), func() trLines { return body(i + 1) })
 	}
-	return trWrapPre(pre, trLet(st, "", trOne(v), body(0)))
+	out := trWrapPre(pre, trLet(st, "", trOne(v), body(0)))
+	if aliasing {
+		out = trLet(keyName, keyTy, trOne(keyVal), out)
+	}
+	return out
 }
 
 // ---------------------------------------------------------------------------------------------- if / switch
